@@ -1,0 +1,95 @@
+//go:build verif
+
+// Verification hooks: constructors that build the clients on an injected knxnet.Socket instead of
+// a kernel socket, and two non-blocking probes of the router's internal state. This file only
+// exists for the build tag "verif"; nothing here is part of the library's API.
+
+package knx
+
+import (
+	"container/list"
+
+	"github.com/vapourismo/knx-go/knx/cemi"
+	"github.com/vapourismo/knx-go/knx/knxnet"
+)
+
+// VerifNewTunnel is NewTunnel after the socket has been created.
+func VerifNewTunnel(sock knxnet.Socket, layer knxnet.TunnelLayer, config TunnelConfig) (*Tunnel, error) {
+	client := &Tunnel{
+		sock:    sock,
+		config:  checkTunnelConfig(config),
+		layer:   layer,
+		ack:     make(chan *knxnet.TunnelRes),
+		inbound: make(chan cemi.Message),
+		done:    make(chan struct{}),
+	}
+
+	err := client.requestConn()
+	if err != nil {
+		sock.Close()
+		return nil, err
+	}
+
+	client.wait.Add(1)
+	go client.serve()
+
+	return client, nil
+}
+
+// VerifNewGroupTunnel is NewGroupTunnel after the socket has been created.
+func VerifNewGroupTunnel(sock knxnet.Socket, config TunnelConfig) (gt GroupTunnel, err error) {
+	gt.Tunnel, err = VerifNewTunnel(sock, knxnet.TunnelLayerData, config)
+
+	if err == nil {
+		gt.inbound = make(chan GroupEvent)
+		go serveGroupInbound(gt.Tunnel.Inbound(), gt.inbound)
+	}
+
+	return
+}
+
+// VerifNewRouter is NewRouter after the socket has been created.
+func VerifNewRouter(sock knxnet.Socket, config RouterConfig) *Router {
+	config = checkRouterConfig(config)
+
+	r := &Router{
+		sock:          sock,
+		config:        config,
+		inbound:       make(chan cemi.Message),
+		retainer:      list.New(),
+		postSendPause: config.PostSendPauseDuration,
+	}
+
+	go r.serve()
+
+	return r
+}
+
+// VerifNewGroupRouter is NewGroupRouter after the socket has been created.
+func VerifNewGroupRouter(sock knxnet.Socket, config RouterConfig) (gr GroupRouter) {
+	gr.Router = VerifNewRouter(sock, config)
+	gr.inbound = make(chan GroupEvent)
+	go serveGroupInbound(gr.Router.Inbound(), gr.inbound)
+
+	return
+}
+
+// VerifSendLocked reports whether the router's send lock is held right now.
+func (router *Router) VerifSendLocked() bool {
+	if router.sendMu.TryLock() {
+		router.sendMu.Unlock()
+		return false
+	}
+
+	return true
+}
+
+// VerifRetainedLen returns the number of retained messages, or -1 if the send lock is held.
+func (router *Router) VerifRetainedLen() int {
+	if !router.sendMu.TryLock() {
+		return -1
+	}
+	defer router.sendMu.Unlock()
+
+	return router.retainer.Len()
+}
